@@ -521,7 +521,7 @@ Definition bm_update (s : session) (h : handle) (k : sval) (v : option sval) : o
   | Some prev =>
       let '(its, rem) :=
         match prev, v with
-        | Some _, Some x => (replace_item k x (h_items h), h_removed h)
+        | Some _, Some x => (insert_item k x (remove_item k (h_items h)), h_removed h)   (* as of /repo bfc6932 *)
         | Some _, None => (remove_item k (h_items h), add_key k (h_removed h))
         | None, Some x => (insert_item k x (h_items h), del_key k (h_removed h))
         | None, None => (h_items h, h_removed h)
